@@ -111,7 +111,8 @@ def scan_forbidden() -> list[str]:
 
 
 def build_coq() -> None:
-    if not os.path.exists(os.path.join(COQ, 'Makefile')):
+    mk, cp = os.path.join(COQ, 'Makefile'), os.path.join(COQ, '_CoqProject')
+    if not os.path.exists(mk) or os.path.getmtime(cp) > os.path.getmtime(mk):      # new files listed since the last coq_makefile
         rc, out = _run(['coq_makefile', '-f', '_CoqProject', '-o', 'Makefile'], COQ, 120)
         if rc:
             raise BuildError('coq_makefile', out)
